@@ -32,8 +32,8 @@ IMPL_TIMEOUT = 3000
 COQ_TIMEOUT = 1500
 
 RULE = ("labelled graphs presented with several node numberings / insertion orders / edge orientations, four back-ends; a case is "
-        "non-trivial when the graph has a non-trivial automorphism on the covered attributes or two nodes with equal sort keys "
-        "(element, charge, aromatic, hcount); distinct = distinct base presentations")
+        "non-trivial when two nodes have equal sort keys (element, charge, aromatic, hcount) - which includes every graph with a "
+        "non-trivial automorphism on the covered attributes; distinct = distinct base presentations")
 EXHAUSTIVE = {"quick": False, "thorough": False}
 EXPLANATION = ("Exhaustive: every isomorphism class of graphs with <= 3 nodes (quick) / <= 4 nodes (thorough) over 2 elements x hcount{0,1} x "
                "bond orders {absent,1,2}, each re-inserted and renumbered; whole-family soundness batches (all classes with 3 and 4 nodes). "
@@ -513,6 +513,44 @@ def oracle(case):
     raise AssertionError(k)
 
 
+def _all_mutants(g):
+    """Every single-attribute perturbation of g (used by the failing-input search around a disagreeing case)."""
+    out = []
+
+    def cp():
+        return {"nodes": [[n, dict(a)] for n, a in g["nodes"]], "edges": [[u, v, dict(a)] for u, v, a in g["edges"]]}
+    for i, (n, a) in enumerate(g["nodes"]):
+        for k, v in (("element", "O" if a.get("element") != "O" else "N"), ("charge", a.get("charge", 0) + 1),
+                     ("hcount", a.get("hcount", 0) + 1), ("aromatic", not a.get("aromatic", False))):
+            h = cp()
+            h["nodes"][i][1][k] = v
+            out.append(h)
+    for i, (u, v, a) in enumerate(g["edges"]):
+        h = cp()
+        h["edges"][i][2]["order"] = 2.0 if float(a.get("order", 1)) != 2.0 else 1.0
+        out.append(h)
+        h = cp()
+        h["edges"][i][2]["standard_order"] = 1.0 if float(a.get("standard_order", 0)) != 1.0 else -1.0
+        out.append(h)
+        h = cp()
+        del h["edges"][i]
+        out.append(h)
+    return out
+
+
+def neighbours(case, rng):
+    if case["kind"] != "graph":
+        return []
+    out = []
+    g = case["g"]
+    muts = _all_mutants(g)
+    for k in range(0, len(muts), 8):
+        out.append(dict(kind="graph", sub="neighbour", g=g, alts=[], others=muts[k:k + 8], name="neighbour/mutants"))
+    c = _graph_case("neighbour", g, rng, nalts=6, nothers=0, name="neighbour/presentations")
+    out.append(c)
+    return out[:40]
+
+
 def nontrivial(case, obs):
     if case["kind"] != "graph":
         return False
@@ -545,7 +583,11 @@ def distribution(cases, obss):
                     symmetric += 1
         except Exception:
             pass
-    return dict(nodes={str(k): v for k, v in sorted(sizes.items())}, edges={str(k): v for k, v in sorted(edges.items())},
+    subs = {}
+    for c in cases:
+        k = c.get("sub", c["kind"])
+        subs[k] = subs.get(k, 0) + 1
+    return dict(populations=subs, nodes={str(k): v for k, v in sorted(sizes.items())}, edges={str(k): v for k, v in sorted(edges.items())},
                 alt_presentations=kinds_alt, tied_node_keys=tied, presentations_with_nontrivial_automorphism=symmetric,
                 refine_calls_compared=refines, minimal_leaves_compared=leaves)
 
@@ -599,7 +641,10 @@ def _mutant(g, rng):
     z = rng.random()
     if z < 0.3 and h["edges"]:
         e = rng.choice(h["edges"])
-        e[2]["order"] = rng.choice([x for x in (1.0, 2.0, 1.5, 3.0) if x != e[2]["order"]])
+        if "standard_order" in e[2] and rng.random() < 0.5:
+            e[2]["standard_order"] = rng.choice([x for x in (0.0, 1.0, -1.0, 0.5) if x != e[2]["standard_order"]])
+        else:
+            e[2]["order"] = rng.choice([x for x in (1.0, 2.0, 1.5, 3.0) if x != e[2]["order"]])
     elif z < 0.6 and len(ids) >= 3 and h["edges"]:
         # move one endpoint of an edge
         e = rng.choice(h["edges"])
